@@ -7,13 +7,16 @@ from . import gen
 from .metrics_table import T
 
 
-def gen_knn_case(rng, tier, *, model=None, metrics=None, max_n=None, gclasses=None, hostile_val=True):
+NONNEG_METRICS = sorted(k for k, v in T.items() if "n" in v[2])      # includes the asymmetric neyman/pearson/KL/K-divergence
+
+
+def gen_knn_case(rng, tier, *, model=None, metrics=None, max_n=None, gclasses=None, hostile_val=True, allow_pre=False):
     model = model or ("knn" if rng.random() < 0.5 else "unsup")
     n = gen.sizes(rng, tier, lo=3, quick_hi=30, thorough_hi=70)
     if max_n:
         n = min(n, max_n)
     d = int(rng.integers(1, 6))
-    gclasses = gclasses or ("G1", "G2", "G3", "G4", "G5", "G6")
+    gclasses = gclasses or ("G1", "G2", "G3", "G4", "G5", "G6", "GJ")
     gc = gclasses[int(rng.integers(0, len(gclasses)))]
     metric = metrics[int(rng.integers(0, len(metrics)))] if metrics else "log_squared_euclidean"
     kind = T[metric][1]
@@ -42,8 +45,26 @@ def gen_knn_case(rng, tier, *, model=None, metrics=None, max_n=None, gclasses=No
     for t in range(len(Q)):
         if rng.random() < 0.3:
             Q[t] = X[int(rng.integers(0, n))]
-    return {"model": model, "metric": metric, "gclass": gc, "pattern": pattern, "X": X.tolist(), "Y": Y.tolist(),
-            "V": V.tolist(), "YV": [int(v) for v in YV], "Q": Q.tolist(), "min_k": min_k, "max_k": max_k}
+    case = {"model": model, "metric": metric, "gclass": gc, "pattern": pattern, "X": X.tolist(), "Y": Y.tolist(),
+            "V": V.tolist(), "YV": [int(v) for v in YV], "Q": Q.tolist(), "min_k": min_k, "max_k": max_k, "pre": None}
+    if allow_pre and rng.random() < 0.25:
+        # pre-computed distances.  unsupervised: N x N matrix of a larger dataset, shuffled training subset, queries anywhere.
+        # KNN-supervised demands an n_train x n_train matrix: training = a permutation of 0..n-1, validation/query indices inside it.
+        mk = gen.pick(rng, ["M1", "M2", "M3"])
+        if model == "knn":
+            N = n
+            I = rng.permutation(n)
+            IV = rng.integers(0, n, size=len(case["V"]))
+        else:
+            N = n + int(rng.integers(1, 8))
+            I = rng.permutation(N)[:n]
+            IV = None
+        D = gen.make_matrix(rng, N, mk)
+        IQ = rng.integers(0, N, size=len(case["Q"]))
+        case["pre"] = {"D": D.tolist(), "I": [int(i) for i in I], "IV": None if IV is None else [int(i) for i in IV],
+                       "IQ": [int(i) for i in IQ], "kind": mk}
+        case["gclass"] = "pre:" + mk
+    return case
 
 
 def arrays(case):
@@ -57,12 +78,55 @@ def fit_model(case, m=None):
     """Build + fit the real model of the case. Returns (model, Call)."""
     from .snap import build_model, safe_call
 
+    import os
+    import shutil
+    import tempfile
+
     X, Y, V, YV, _ = arrays(case)
+    pre = case.get("pre")
     if m is None:
-        m = build_model(case["model"], case["metric"], max_k=case["max_k"], min_k=case.get("min_k", 1))
+        pre_file = None
+        tmp = None
+        if pre:
+            tmp = tempfile.mkdtemp(prefix="knncase_")
+            pre_file = os.path.join(tmp, "d.txt")
+            np.savetxt(pre_file, np.array(pre["D"], dtype=float))
+        try:
+            m = build_model(case["model"], case["metric"], pre=pre_file, max_k=case["max_k"], min_k=case.get("min_k", 1))
+        finally:
+            if tmp:
+                shutil.rmtree(tmp, ignore_errors=True)
+    I = np.array(pre["I"], dtype=int) if pre else None
     if case["model"] == "knn":
-        return m, safe_call(m.fit, X.copy(), Y.copy(), V.copy(), YV.copy())
-    return m, safe_call(m.fit, X.copy(), Y.copy())
+        IV = np.array(pre["IV"], dtype=int) if pre else None
+        return m, safe_call(m.fit, X.copy(), Y.copy(), V.copy(), YV.copy(), I, IV)
+    return m, safe_call(m.fit, X.copy(), Y.copy(), I)
+
+
+def predict(case, m, Q, IQ=None):
+    from .snap import safe_call
+
+    if case.get("pre"):
+        return safe_call(m.predict, Q.copy(), np.array(IQ, dtype=int))
+    return safe_call(m.predict, Q.copy())
+
+
+def query_distances(case, m, Q, IQ=None):
+    """dq[x][t] = distance from query x to training node t in the code's argument order (query, train)."""
+    nodes = m.subgraph.nodes
+    out = np.zeros((len(Q), len(nodes)))
+    if case.get("pre"):
+        D = m.pre_distances
+        for x in range(len(Q)):
+            for t, nd in enumerate(nodes):
+                out[x, t] = D[int(IQ[x])][nd.idx]
+        return out
+    fn = m.distance_fn
+    feats = [np.array(nd.features, dtype=float) for nd in nodes]
+    for x in range(len(Q)):
+        for t in range(len(nodes)):
+            out[x, t] = float(fn(np.array(Q[x], dtype=float), feats[t].copy()))
+    return out
 
 
 def degenerate_density(case, W=None):
